@@ -155,6 +155,9 @@ const CONTEXTS: &[Ctxt] = &[
     Ctxt { name: "index subject", tmpl: "print(v[0] == v[0])\n", accept: &[K::List, K::Str] },
     Ctxt { name: "index assignment subject", tmpl: "w := v; w[0] = 3; print(w[0])\n", accept: &[K::List] },
     Ctxt { name: "range index subject", tmpl: "print(v[0:1] == v[0:1])\n", accept: &[K::List, K::Str] },
+    Ctxt { name: "equality of lists holding the value", tmpl: "print([v] == [v])\n", accept: &[K::Null, K::Bool, K::Int, K::Str, K::List, K::Obj] },
+    Ctxt { name: "equality of objects holding the value", tmpl: "w := {\"k\": v}\nprint(w == {\"k\": v})\n", accept: &[K::Null, K::Bool, K::Int, K::Str, K::List, K::Obj] },
+    Ctxt { name: "inequality of nested lists holding the value", tmpl: "print([[1, v]] != [[1, v]])\n", accept: &[K::Null, K::Bool, K::Int, K::Str, K::List, K::Obj] },
     Ctxt { name: "full range index subject", tmpl: "print(v[:] == v[:])\n", accept: &[K::List, K::Str] },
     Ctxt { name: "open range index subject", tmpl: "print(v[0:] == v[:1])\n", accept: &[K::List, K::Str] },
     Ctxt { name: "range assignment subject", tmpl: "w := v; w[0:1] = [3]; print(w[0])\n", accept: &[K::List] },
